@@ -288,6 +288,32 @@ def check_C12(cx):
         for v in odd:
             for pre in ([], [("all", 0)], [("all", 1)], [("mov", 2), ("sib", 0)]):
                 hists.append(hist_for([(0, pw, pv) for pw, pv in pre] + [(0, w, v)]))
+    # each dimension by itself: lines that are sensitive to two or three dimensions at once (a padded / short / decimal immediate
+    # next to a base-less scaled index or a stack-pointer index) under all 12 states, whole per-line model against the implementation —
+    # the setting of one dimension must not change how another one is applied on the same line
+    cross = []
+    for ins in (b"add qword", b"mov qword", b"and dword", b"cmp byte", b"test qword"):
+        for mem in (b"[2*rax]", b"[1*r9]", b"[rax+rsp]", b"[r13+rsp]", b"[2*r13+0x10]", b"[rcx]"):
+            for imm in (b"0x1", b"0x0000000000000001", b"1", b"-0x0000000000000002", b"0x000000000000007f"):
+                cross.append(ins + b" " + mem + b", " + imm)
+    for mem in (b"[2*rax]", b"[rax+rsp]", b"[2*r13]"):
+        cross += [b"mov rax, " + mem, b"lea r15, " + mem]
+    tie_lines(cx, impl, [(o, l) for o in cases.OPTS for l in cross],
+              "C12 lines sensitive to several option dimensions at once, all 12 states (whole per-line model)")
+    # failing-input search on the implementation alone: none of these lines is a `mov r64, imm`, so under a fixed pair of SIB settings
+    # the three mov-immediate settings must give the same code
+    cres = impl_line_results(impl, [(o, l) for o in cases.OPTS for l in cross])
+    dep = None
+    for l in cross:
+        for sibbits in sorted(set(o & ~3 for o in cases.OPTS)):
+            got = {o: cres[(o, l)] for o in cases.OPTS if o & ~3 == sibbits}
+            if len(set(got.values())) > 1 and dep is None:
+                dep = {"line": l.decode(), "sib_bits": sibbits, "by_option_byte": {str(o): list(v) for o, v in got.items()}}
+    cx.oblige("a line without `mov r64, imm` assembles the same under the three mov-immediate settings (each pair of SIB settings; implementation)",
+              dep is None, json.dumps(dep))
+    if dep:
+        cx.violations.append({"kind": "dimension-dependence", "what": "the mov-immediate setting changes how the SIB settings are applied "
+                              "to a line that has no mov r64, imm", **dep})
     ops, out = tie_api_mod_lf(cx, impl, hists, "C12 setter histories (model setters + implementation's own per-line results)")
     # The model's setters are PROVED to implement the documented table (refines_abs) and the probe
     # bytes come from the implementation's own per-line results for the model's option byte, so a
@@ -2167,7 +2193,37 @@ def check_enc(cx):
             if p_[0] != "0" or (p_[2] if len(p_) > 2 else "") != want_b:
                 groups.setdefault(("mov", "r64 imm", "not the encoding movBytes of the flagship theorem"), []).append(
                     (t.decode(), o, p_[2] if len(p_) > 2 else "-", "expected " + want_b))
-        cx.dist_extra = {"mov_r64_imm_lines": len(mkeys)}
+        # the ALU family (theorems C03.alu_r64_*): `<op> r64, v` for the eight group-1 operations, seeded random and threshold values that
+        # sign-extend from 32 bits, all 16 registers, four spellings, every option byte; oracle: AL.Spec.AluImm.aluBytes, computed here
+        aops = [("add", 0), ("or", 1), ("adc", 2), ("sbb", 3), ("and", 4), ("sub", 5), ("xor", 6), ("cmp", 7)]
+        avals = [0, 1, 0x7e, 0x7f, 0x80, 0x81, 0xdf, 0xe0, 0xe1, 0xff, 0x100, 0xfffffff, 0x10000000, 0x10000001, 0x7ffffffe, 0x7fffffff]
+        avals += [(1 << 64) - x for x in (1, 2, 0x7f, 0x80, 0x81, 0xff, 0x100, 0x101, 0x7fffffff, 0x80000000)]
+        avals += [rr.getrandbits(rr.choice([7, 8, 16, 28, 29, 31])) for _ in range(40 if quick else 1200)]
+        avals += [(1 << 64) - 1 - rr.getrandbits(rr.choice([6, 7, 8, 16, 31])) for _ in range(30 if quick else 900)]
+
+        def alu_bytes(n, m, v):
+            if v <= 0x7f or v >= 0xffffffffffffff80:
+                return bytes([0x48 + m // 8, 0x83, 0xc0 + 8 * n + m % 8, v % 256])
+            head = bytes([0x48, 8 * n + 5]) if m == 0 else bytes([0x48 + m // 8, 0x81, 0xc0 + 8 * n + m % 8])
+            return head + (v % 2 ** 32).to_bytes(4, "little")
+        akeys, aexp = [], []
+        for v in avals:
+            assert v < 0x80000000 or v >= 0xffffffff80000000
+            for m in ([0, rr.randrange(16), rr.randrange(16)] if quick else range(16)):
+                for (mn, n) in ([rr.choice(aops)] if quick else aops):
+                    pad = rr.choice([0, 0, 1, 4])
+                    neg = (-v) % 2 ** 64
+                    toks = ["0x" + "0" * pad + "%x" % v, "-0x" + "0" * pad + "%x" % neg, "0" * pad + "%d" % v, "-" + "0" * pad + "%d" % neg]
+                    for tok in toks:
+                        akeys.append((rr.choice(cases.OPTS), ("%s %s, %s" % (mn, regs[m], tok)).encode()))
+                        aexp.append(alu_bytes(n, m, v).hex())
+        aops_, aout = tie_lines(cx, impl, akeys, "C03 <alu op> r64, v over random and threshold values")
+        for (o, t), ln, want_b in zip(akeys, aout, aexp):
+            p_ = ln.split()
+            if p_[0] != "0" or (p_[2] if len(p_) > 2 else "") != want_b:
+                groups.setdefault((t.decode().split()[0], "r64 imm", "not the encoding aluBytes of the theorems C03.alu_r64_*"), []).append(
+                    (t.decode(), o, p_[2] if len(p_) > 2 else "-", "expected " + want_b))
+        cx.dist_extra = {"mov_r64_imm_lines": len(mkeys), "alu_r64_imm_lines": len(akeys)}
     for (mn, pat, reason), exs in groups.items():
         t, o, b, d = exs[0]
         cx.violations.append({"kind": "encoding", "mnemonic": mn, "operands": pat, "reason": reason, "count": len(exs), "line": t, "opt": o,
@@ -2196,6 +2252,8 @@ ENC_THEOREMS = {
     "C03": ["AL.Properties.Sweep.c03_sweep", "AL.Properties.C03.written_number_value", "AL.Properties.C03.written_number_value_padded", "AL.Properties.C03.imm_field_reads_back", "AL.Properties.C03.imm_field_dword", "AL.Properties.C03.imm_field_qword",
             "AL.Properties.C03.mov_r64_hex", "AL.Properties.C03.mov_r64_neg_hex", "AL.Properties.C03.mov_r64_dec", "AL.Properties.C03.mov_r64_neg_dec",
             "AL.Lemmas.MovImm.mov_bytes", "AL.Lemmas.MovText.mov_line", "AL.Spec.MovImm.movResult_movBytes",
+            "AL.Properties.C03.alu_r64_hex", "AL.Properties.C03.alu_r64_neg_hex", "AL.Properties.C03.alu_r64_dec", "AL.Properties.C03.alu_r64_neg_dec",
+            "AL.Properties.C03.aluOps_digits", "AL.Lemmas.Alu.alu_bytes", "AL.Lemmas.Alu.aluKeys_classified", "AL.Lemmas.AluText.alu_line", "AL.Spec.AluImm.aluRead_aluBytes",
             "AL.Lemmas.assembleImm_dword", "AL.Lemmas.assembleImm_qword", "AL.Lemmas.assembleImm_reduced", "AL.Lemmas.assembleConst_pad",
             "AL.Lemmas.strtoul_dec", "AL.Lemmas.strtoul_hex", "AL.Lemmas.strtoul_neg_dec", "AL.Lemmas.strtoul_neg_hex"],
     "C04": ["AL.Properties.Sweep.c04_sweep", "AL.Properties.C04.vex2_is_vex3"],
@@ -2218,6 +2276,9 @@ FAULT_SCENARIOS = ["create_int", "create_ext", "growth", "file", "file_count", "
 # a refused growth in chunk-fitting / counting mode: the room check after the NOP padding is a growth point of its own, reached only
 # for chunk sizes and alignments where the padding carries the position over the threshold
 FAULT_GROWTH_BIG = ["growthbigfit:16", "growthbigcount:16", "growthbigfit:9", "growthbigcount:7"]
+# one call that has to grow the buffer several times (the position was moved far ahead): each of its growth steps refused in turn
+FAULT_GROWTH_FAR = ["growthfar:2", "growthfar:5"]
+FAR_TEXT = b"nop\nret\n"
 FAULT_GROWTH_MODES = ["growthfit:%d:%d" % (c, lead) for c in (7, 11, 13, 24) for lead in range(0, 100)] + \
                      ["growthcount:%d:%d" % (c, lead) for c in (7, 16) for lead in (0, 33, 77)]
 FILE_TEXT = b"mov rcx, 0x5\nadd rcx, rdx\nnop\nret\n"
@@ -2295,6 +2356,8 @@ def model_fault(sc, kind, k, counts):
             ops += ["K 0 %s" % chunk, "A 0 %s" % cases.hexs(big), "K 0 0"]
         elif mode == "growthbigcount":
             ops += ["C 0 %s %s 1" % (chunk, cases.hexs(big))]
+        elif mode == "growthfar":
+            ops += ["O 0 %d" % (14 + 6000 * int(chunk)), "A 0 %s" % cases.hexs(FAR_TEXT)]
         else:
             ops += ["A 0 %s" % cases.hexs(big)]
     elif sc in ("file", "file_count"):
@@ -2319,7 +2382,7 @@ def model_fault(sc, kind, k, counts):
     exp["asm1"], exp["off1"] = out[1].split()[0], out[1].split()[1]
     exp["code1"] = out[2]
     step = out[5].split() if sc.startswith("growthfit") else out[4].split() if sc.startswith("growthcount") else \
-        out[4].split() if sc.startswith("growthbigfit") else out[3].split()
+        out[4].split() if sc.startswith("growthbigfit") or sc.startswith("growthfar") else out[3].split()
     if sc.startswith("growth"):
         exp["asm2"], exp["off2"] = step[0], step[1]
     elif sc in ("file", "file_count"):
@@ -2336,7 +2399,8 @@ def model_fault(sc, kind, k, counts):
     if sc.startswith("growth") and kind == "mremap":
         # only the k-th growth is refused: the follow-up call may itself have to grow and that growth succeeds, so it runs on an
         # instance that has the room of k growths, positioned at the offset the failed call left behind
-        o2 = run(["N 1 %d 00" % (6020 + 6000 * k), "O 1 %s" % exp["off2"], "A 1 %s" % cases.hexs(P3_TEXT), "F 1"])
+        o2 = run([("N 1 -" if sc.startswith("growthfar") else "N 1 %d 00" % (6020 + 6000 * k)), "O 1 %s" % exp["off2"],
+                  "A 1 %s" % cases.hexs(P3_TEXT), "F 1"])
         exp["asm3"], exp["off3"] = o2[-2].split()[0], o2[-2].split()[1]
     exp["destroy"] = "0"
     return exp
@@ -2367,7 +2431,7 @@ def check_C17(cx):
     nsched = nfired = 0
     fired_by_kind = collections.Counter()
     samples = []
-    for sc in FAULT_SCENARIOS + FAULT_GROWTH_BIG + (FAULT_GROWTH_MODES if cx.tier == "thorough" else FAULT_GROWTH_MODES[::2]):
+    for sc in FAULT_SCENARIOS + FAULT_GROWTH_BIG + FAULT_GROWTH_FAR + (FAULT_GROWTH_MODES if cx.tier == "thorough" else FAULT_GROWTH_MODES[::2]):
         rc, ended, base, err = run_fault(impl, sc, "none", 0, tmpdir)
         if rc != 0 or not ended:
             cx.violations.append({"kind": "crash", "scenario": sc, "fault": "none", "rc": rc, "stderr": err, "what": "scenario crashes without any fault"})
@@ -2748,6 +2812,21 @@ def check_C19(cx):
         meta.append(("bin", off))
     hists.append(["N 0 300 cc", "A 0 %s" % cases.hexs(prog), "W 0 %s bad" % os.path.join(tmp, "no", "such", "dir", "o.bin"), "F 0"])
     meta.append(("bin", "unwritable"))
+    # a long history of failing file calls in front of a valid one, in a process with a small descriptor budget: the file entry points
+    # still equal the string entry points afterwards (a call that fails must not keep the file open)
+    good = os.path.join(tmp, "budget.asm")
+    gtext = b"mov rcx, 0x11\nadd rax, rcx\npush r12\nret\n"
+    open(good, "wb").write(gtext)
+    nfail = 70 if quick else 400
+    h = ["H 0 40", "N 0 300 cc", "N 1 300 cc"]
+    fails = [os.path.join(tmp, "adir"), os.path.join(tmp, "does_not_exist.asm"), os.path.join(tmp, "adir", "..", "adir")]
+    for i in range(nfail):
+        b = fails[i % 3]
+        h.append(("R 0 %s missing" % b) if i % 2 == 0 else ("U 0 8 %s missing 1" % b))
+    h += ["R 0 %s %s" % (good, cases.hexs(gtext)), "A 1 %s" % cases.hexs(gtext), "D 0 0 40", "D 1 0 40",
+          "U 0 4 %s %s 1" % (good, cases.hexs(gtext)), "C 1 4 %s 1" % cases.hexs(gtext), "F 0", "F 1", "H 0 0"]
+    hists.append(h)
+    meta.append(("budget", nfail))
     ops, out = tie_api_mod_lf(cx, impl, hists, "C19 file entry points vs model (readFile / asmAssembleFile / createBinFile)")
     pos = 0
     nv = 0
@@ -2760,6 +2839,10 @@ def check_C19(cx):
         if m[0] == "missing":
             if o[2].split()[0] != "1" or o[4].split()[0] != "1" or o[3] != o[1].split()[1] or o[5] != o[3] or o[7].split()[0] != "0":
                 bad = "a missing or unreadable file does not yield EXIT_FAILURE with the instance unchanged and usable"
+        elif m[0] == "budget":
+            k = 3 + m[1]
+            if o[k] != o[k + 1] or o[k + 2] != o[k + 3] or o[k + 4] != o[k + 5]:
+                bad = "after %d failing file calls the file entry point and the string entry point on the file's contents differ" % m[1]
         elif m[0] == "bin":
             rc, filehex = o[3].split() if m[1] != "unwritable" else o[2].split()
             if m[1] == "unwritable":
@@ -2862,7 +2945,10 @@ def check_C20(cx):
     os.makedirs(tmp, exist_ok=True)
     probe = b"mov rax, 0x1\nmov rcx, 0x0000000000000001\nlea r15, [rax+rsp]\nlea r14, [2*rax]\nvaddpd ymm1, ymm2, [rax+r9*8+16]\nret\n"
     progs = [probe, b"mov rax, 0x1122334455667788\nret", b"nop\n\n; comment\nlabel:\nadd rax, rcx\npush r12\nmov rax, 0x7fffffff\nret\n",
-             b"xor eax, eax\nbogus rax\nret\n", b"", b"ret", b"mov rdx, 0x1122334455667788\n" * 700]
+             b"xor eax, eax\nbogus rax\nret\n",
+             # empty and blank lines directly behind instructions that cross a -b / -c boundary, also as the last lines
+             b"mov rax, 0x1122334455667788\n\nret\n", b"nop\nmov rax, 0x1122334455667788\n\n\n  \n\nmov rcx, 0x1122334455667788\n\n\n",
+             b"", b"ret", b"mov rdx, 0x1122334455667788\n" * 700]
     for _ in range(3 if quick else 30):
         progs.append(g.program(r.choice([4, 12, 40])))
     progs = [bytes(x for x in p if x != 0) for p in progs]
@@ -2872,7 +2958,7 @@ def check_C20(cx):
     for pi, prog in enumerate(progs):
         modes = CLI_MODES if pi == 0 else r.sample(CLI_MODES, 4 if quick else 10)
         for mode in modes:
-            for out in (outs if pi < 4 or len(prog) > 6000 else r.sample(outs, 5)):
+            for out in (outs if pi < 6 or len(prog) > 6000 else r.sample(outs, 5)):
                 for stdin in (False, True):
                     cases_.append((pi, mode + out if r.random() < 0.5 else out + mode, stdin))
     # -r on side-effect free programs
@@ -2945,11 +3031,17 @@ def check_C20(cx):
         if wants_file and xrc == 0 and not usage and fb is None:
             bad = "exit status 0 although the requested binary file (NAME.bin for -o NAME) does not exist afterwards"
         key = (pi, tuple(sorted(toks)))
+        cnt = None
+        if xrc == 0 and any(t.startswith("b=") for t in toks):
+            mc = re.search(r"^(-?\d+)( instructions break a chunk boundary of (\d+) bytes)?$", so, re.M)
+            cnt = mc.group(1) if mc else "?"
         if not usage:
             prev = seen_by_key.get((pi, tuple(toks)))
             if prev is not None and prev[0] != stdin and (prev[1], prev[2]) != (xrc, fb) and "p" not in toks:
                 bad = "stdin and FILE give different results"
-            seen_by_key[(pi, tuple(toks))] = (stdin, xrc, fb)
+            if prev is not None and prev[0] != stdin and prev[3] != cnt:
+                bad = "-b prints a different count for the same program from stdin (%s) and from FILE (%s)" % ((cnt, prev[3]) if stdin else (prev[3], cnt))
+            seen_by_key[(pi, tuple(toks))] = (stdin, xrc, fb, cnt)
         if bad and nviol < 6:
             nviol += 1
             cx.violations.append({"kind": "cli", **tag, "exit": xrc, "stdout": so[-600:], "file": fb, "library_bytes": mcode, "what": bad})
